@@ -2,6 +2,8 @@
 
 package nebula
 
+import "sync"
+
 import "net/netip"
 
 // No-op counterparts of verif_hooks_on.go: the shipped build contains no
@@ -23,3 +25,9 @@ func verifRLockPoint(string, verifTryRLocker) {}
 func verifSortRelays([]*Relay)                {}
 func verifSortAddrs([]netip.Addr)             {}
 func verifSortU32([]uint32)                   {}
+
+// verifRWMutex / verifMutex are the mutex types of the structures whose lock
+// acquisitions a simulator may want to schedule; without the verif tag they are
+// plain aliases of the sync types.
+type verifRWMutex = sync.RWMutex
+type verifMutex = sync.Mutex
